@@ -162,6 +162,23 @@ fn multiline_custom_errors() -> Vec<(String, String)> {
     v
 }
 
+/// metadata values beyond the 64-byte limit whose characters are wider than a byte around the limit (a diagnostic that
+/// locates "the part that does not fit" has to cut between characters), after a multi-byte comment
+fn oversize_metadata() -> Vec<(String, String)> {
+    let mut v = vec![];
+    for wide in ["é", "€", "😀"] {
+        for k in 56..=66usize {
+            let text = format!("{}{}{}", "a".repeat(k), wide.repeat(3), "z".repeat(12));
+            v.push((
+                format!("oversize-metadata-{}-{k}", wide.len()),
+                format!("// ünï\nparty P;\ntx t(q: Int) {{\n    metadata {{\n        1: \"{text}\",\n        2: \"{}\",\n    }}\n}}\n", wide.repeat(40)),
+            ));
+        }
+    }
+    v.push(("oversize-metadata-hex".into(), format!("party P;\ntx t(q: Int) {{\n    metadata {{\n        1: 0x{},\n    }}\n}}\n", "ab".repeat(70))));
+    v
+}
+
 impl Prop for C19 {
     fn id(&self) -> &'static str {
         "C19"
@@ -172,7 +189,7 @@ impl Prop for C19 {
     fn rule(&self, tier: Tier) -> String {
         format!(
             "every source of the C12 enumeration ({}) plus a positional sweep: each of {} offending tokens inserted at every token boundary of \
-             {} multi-line bases (LF with multi-byte comments; CRLF + tabs + multi-byte comments on every line). Oracle: parse error => span \
+             {} multi-line bases (LF with multi-byte comments; CRLF + tabs + multi-byte comments on every line); metadata strings that pass the 64-byte limit with 2-, 3- and 4-byte characters at every offset around it. Oracle: parse error => span \
              within the text the error carries, on char boundaries, and the error renders through miette; analysis error with a real span => \
              within the input, on char boundaries, and for not-in-scope the located text equals the name. Non-trivial = the front end reported \
              at least one diagnostic that was judged; distinct = distinct sources.",
@@ -215,6 +232,9 @@ impl Prop for C19 {
         }
         for (name, src) in multiline_custom_errors() {
             sink.case(|| json!({"kind": "custom-error", "base": name, "src": src}));
+        }
+        for (name, src) in oversize_metadata() {
+            sink.case(|| json!({"kind": "analysis-error", "base": name, "src": src}));
         }
         c12::C12.enumerate(tier, sink);
     }
